@@ -33,6 +33,7 @@ INSTRUMENT_DIRS = [
     "core/circuitbreaker",
     "core/system",
     "core/outlier",
+    "ext/datasource/file",
 ]
 
 REWRITE = {
@@ -43,12 +44,15 @@ RUNTIME = '"%s/verifshim/vruntime"' % MOD
 VTIME = '"%s/verifshim/vtime"' % MOD
 # files whose "time" import is replaced by the virtual-timer shim
 VTIME_FILES = {"core/outlier/recycler.go", "core/outlier/retryer.go"}
+# files whose fsnotify import is replaced by the injected-event watcher
+VFSNOTIFY = '"%s/verifshim/vfsnotify"' % MOD
+VFSNOTIFY_FILES = {"ext/datasource/file/refreshable_file.go"}
 
 IMPORT_LINE = re.compile(r'^(\s*)((?:[A-Za-z_][A-Za-z0-9_]*\s+)?)("[^"]+")\s*$')
 SINGLE_IMPORT = re.compile(r'^import\s+((?:[A-Za-z_][A-Za-z0-9_]*\s+)?)("[^"]+")\s*$')
 
 
-def rewrite_source(src, vtime=False):
+def rewrite_source(src, vtime=False, vfsnotify=False):
     """returns (new_src, n_rewritten)"""
     lines = src.split("\n")
     only_gosched = True
@@ -92,6 +96,10 @@ def rewrite_source(src, vtime=False):
             new = VTIME
             if not alias:
                 alias = "time "
+        elif path == '"github.com/fsnotify/fsnotify"' and vfsnotify:
+            new = VFSNOTIFY
+            if not alias:
+                alias = "fsnotify "
         if new:
             lines[i] = "%s%s%s" % (indent, alias, new)
             n += 1
@@ -120,7 +128,10 @@ def main():
             p = os.path.join(full, fn)
             with open(p, encoding="utf-8") as f:
                 src = f.read()
-            new, n = rewrite_source(src, vtime=(d + "/" + fn) in VTIME_FILES)
+            rel = d + "/" + fn
+            if d == "ext/datasource/file" and rel not in VFSNOTIFY_FILES:
+                continue
+            new, n = rewrite_source(src, vtime=rel in VTIME_FILES, vfsnotify=rel in VFSNOTIFY_FILES)
             if n == 0:
                 continue
             dst = os.path.join(out, "src", d, fn)
